@@ -107,7 +107,7 @@ public:
    */
   bool overlap(const Range& r) const
   {
-    return r.begin_ < end_ && r.end_ > begin_;
+    return begin_ < end_ && r.begin_ < r.end_ && r.begin_ < end_ && r.end_ > begin_;
   }
 
   /**
